@@ -7,10 +7,17 @@ The cells live in helper modules (imported here so that they register):
 
 from __future__ import annotations
 
+import logging
+
 from . import _c02_common as cm  # noqa: F401
 from . import _c02_modes  # noqa: F401
+from . import _c02_mttkrp  # noqa: F401
+from . import _c02_pairs  # noqa: F401
+from . import _c02_unary  # noqa: F401
+from ._c02_findings import PREDICATES  # noqa: F401
+
+logging.disable(logging.WARNING)  # pyttb logs a warning per no-copy construction; not a verdict
 
 PROPERTY = "C02"
 RULE = "TBD"
 ASSUMPTIONS = []
-PREDICATES = {}
